@@ -86,7 +86,8 @@ type raceReport struct {
 type Finding struct {
 	Status   string `json:"status"` // open | fixed
 	Property string `json:"property"`
-	Sig      string `json:"sig"` // signature prefix
+	Sig      string `json:"sig"`              // signature prefix
+	Suffix   string `json:"suffix,omitempty"` // alternatively: signature suffix (history marker), property "*" = any
 	Commit   string `json:"commit,omitempty"`
 	What     string `json:"what"`
 }
@@ -196,7 +197,13 @@ func loadFindings() {
 
 func openFinding(sig string) *Finding {
 	for i := range findings {
-		if findings[i].Status == "open" && strings.HasPrefix(sig, findings[i].Sig) {
+		if findings[i].Status != "open" {
+			continue
+		}
+		if findings[i].Sig != "" && strings.HasPrefix(sig, findings[i].Sig) {
+			return &findings[i]
+		}
+		if findings[i].Suffix != "" && strings.Contains(sig, findings[i].Suffix) && (findings[i].Property == "*" || strings.HasPrefix(sig, findings[i].Property+":")) {
 			return &findings[i]
 		}
 	}
